@@ -7,6 +7,7 @@ import json
 import subprocess
 from concurrent.futures import ThreadPoolExecutor
 
+import c11_ambient as A
 import c18_lib as L
 import common
 from common import cbool, clist, cstr, cz
@@ -25,10 +26,13 @@ TRUSTED = [
     "graph extractor harness/translate/c11.py (Python ast -> per function that takes randomness: draws, calls to other such functions with the "
     "class of their randomness argument, uses of process-global randomness; shapes of random_generator, DerivingRNG.__call__, the three stochastic "
     "rankers and the three fork/join loops); name-based call resolution and the coarse 'mentions a derived name' rule are stated at the top of that file; "
-    "the normalisation primitives of lenskit.random are modelled by hand",
+    "the normalisation primitives of lenskit.random are modelled by hand; which expressions count as ambient state (logging level, environment, "
+    "thread / CPU counts, warnings filters, interpreter flags) is the table AMBIENT of that file",
     "numpy PCG64/SeedSequence, torch generators and the BLAS/torch/numba kernels are exercised, not verified: that equal generator states give equal "
     "draws and that per-row arithmetic gives the same bits under different thread counts are runtime facts observed by the relational runs "
-    "(this is the PARTIAL part of chunking_irrelevant_partial)",
+    "(this is the PARTIAL part of chunking_irrelevant_partial); on matrices of about 2^20 entries BLAS with 2 backend threads sums in a "
+    "different order than with 1 (implicit ALS, TruncatedSVD differ in the last bits on the unchanged tree), so across backend-thread counts the "
+    "large models are compared up to 1e-6 of their scale, and not at all for TruncatedSVD / FlexMF (not continuous in rounding)",
     "relational harness: every operation is run twice (or under several configurations / request orders) and sha256-based digests of the canonical "
     "results are compared inside Coq",
 ]
@@ -45,7 +49,14 @@ RULE = ("relational cases: splitters (crossfold/sample, records/users, every bra
         "LK_NUM_BACKEND_THREADS in {1,2,8} in separate processes and item-kNN block sizes {250,64,7,1}; a batch of seeded operations whose "
         "seed derivation or bookkeeping involves names / text ids / sets / dicts (seeds handed to named probe components by Pipeline.train, models "
         "trained through standard pipelines and directly on text-id data, user-derived rankers with text user ids, splitters, negative sampling) "
-        "in separate interpreter processes with PYTHONHASHSEED in {0, 1, random}.  non-trivial = the operation consumed "
+        "in separate interpreter processes with PYTHONHASHSEED in {0, 1, random}.  Seed VALUES are a generated dimension for every seeded "
+        "operation (0, the empty sequence, [s], 2^31, 2^32-1, 2^32, 2^63-1, 2^63, 2^64-1, 2^64, 2^128+5; as int / list / SeedSequence / Generator / "
+        "BitGenerator where accepted) plus grids ranker x edge seed and splitter x seed 0.  Every in-process operation is also repeated under "
+        "another AMBIENT state (DEBUG / TRACE logging for the lenskit loggers, warnings filter, re-seeded numpy / random / torch / lenskit global "
+        "generators) and must give the same result (grid: every model under DEBUG logging).  One large-matrix case per quick run: models whose "
+        "user and item embedding matrices have more entries than the largest size constant found in the graph sources (at least 2^20), one epoch, "
+        "about one rating per row, worker threads {1,2,4} with one backend thread (bit-identical required) and (1,2) (equal up to rounding "
+        "required for ALS / implicit ALS / FunkSVD).  non-trivial = the operation consumed "
         "randomness and another seed gave a different result (splits/sampling/rankers/seeded trainings), or at least two configurations / "
         "request orders were compared; distinct = by hash of the case")
 
@@ -67,8 +78,41 @@ def dg(x) -> int:
 # generator
 # ---------------------------------------------------------------------------------------------
 
+# seed VALUES are a generated dimension: 0, the empty sequence, the edges of the 32 / 63 / 64-bit ranges and beyond are
+# all valid seeds and must behave like any other
+SPECIAL_SEEDS = [0, 0, 0, 1, 2**31, 2**32 - 1, 2**32, 2**63 - 1, 2**63, 2**64 - 1, 2**64, 2**128 + 5]
+
+
+def gen_seed(rng):
+    return rng.choice(SPECIAL_SEEDS) if rng.chance(2, 5) else rng.randint(1, 10**6)
+
+
+def gen_seed2(rng, seed):
+    s2 = rng.randint(10**6 + 1, 2 * 10**6)
+    return s2 if s2 != seed else s2 + 1
+
+
+def seed_class(kind, seed):
+    if kind == "emptylist":
+        return "empty"
+    if seed == 0:
+        return "zero"
+    return "small" if seed < 2**31 else ("32-bit-edge" if seed <= 2**32 else ("64-bit-edge" if seed <= 2**64 else "beyond-64-bit"))
+
+
+# ambient state: not part of (seed, inputs, call sequence); see c11_ambient.ambient
+def gen_ambient(rng):
+    while True:
+        st = {"log": rng.choice([None, "DEBUG", "DEBUG", "TRACE"]), "warnings": rng.choice([None, None, "always", "ignore"]),
+              "global_rng": rng.choice([None, rng.randint(0, 2**32 - 1)])}
+        if any(v is not None for v in st.values()):
+            return st
+
+
 SPLIT_OPS = ["crossfold_records", "crossfold_users", "sample_records", "sample_records", "sample_records", "sample_users", "sample_users", "sample_users"]
-SEED_KINDS = ["int", "int", "seedseq", "intlist", "generator"]
+SEED_KINDS = ["int", "int", "int", "seedseq", "intlist", "list1", "emptylist", "generator", "bitgen"]
+TRAIN_SEED_KINDS = ["int", "int", "int", "seedseq", "intlist", "list1", "emptylist"]
+CONFIG_SEED_KINDS = ["int", "int", "int", "intlist", "list1", "emptylist"]        # what a component configuration accepts
 TRAIN_KINDS = ["als", "ials", "funk", "svd", "flexe", "flexi", "iknn", "uknn", "bias"]
 RANKERS = ["RandomSelector", "SoftmaxRanker", "StochasticTopNRanker"]
 
@@ -76,9 +120,9 @@ RANKERS = ["RandomSelector", "SoftmaxRanker", "StochasticTopNRanker"]
 def gen_holdout(rng):
     k = rng.choice(["SampleN", "SampleN", "SampleFrac", "LastN", "LastFrac"])
     if k == "SampleN":
-        return {"kind": k, "n": rng.randint(1, 3), "seed": rng.randint(1, 10**6)}
+        return {"kind": k, "n": rng.randint(1, 3), "seed": gen_seed(rng)}
     if k == "SampleFrac":
-        return {"kind": k, "frac": rng.choice([0.2, 0.5]), "seed": rng.randint(1, 10**6)}
+        return {"kind": k, "frac": rng.choice([0.2, 0.5]), "seed": gen_seed(rng)}
     if k == "LastN":
         return {"kind": k, "n": rng.randint(1, 2)}
     return {"kind": k, "frac": 0.3}
@@ -90,8 +134,9 @@ def gen_split_case(rng):
     spec["timestamps"] = True
     nrec = len(spec["rows"])
     nusers = len({r[0] for r in spec["rows"]})
-    c = {"type": "split", "op": op, "dataset": spec, "seed_kind": rng.choice(SEED_KINDS), "seed": rng.randint(1, 10**6),
-         "seed2": rng.randint(10**6 + 1, 2 * 10**6)}
+    c = {"type": "split", "op": op, "dataset": spec, "seed_kind": rng.choice(SEED_KINDS), "seed": gen_seed(rng)}
+    c["seed2"] = gen_seed2(rng, c["seed"])
+    c["ambient"] = gen_ambient(rng)
     if op == "crossfold_records":
         c["partitions"] = rng.randint(2, 5)
     elif op == "crossfold_users":
@@ -121,7 +166,8 @@ def gen_neg_case(rng):
     users = sorted({r[0] for r in spec["rows"]})
     return {"type": "neg", "dataset": spec, "rows": [rng.below(len(users)) for _ in range(rng.randint(3, 12))],
             "weighting": rng.choice(["uniform", "popular"]), "n": rng.choice([None, 2, 3]), "verify": rng.chance(3, 4),
-            "max_attempts": rng.choice([0, 2, 10]), "seed": rng.randint(1, 10**6), "seed2": rng.randint(10**6 + 1, 2 * 10**6)}
+            "max_attempts": rng.choice([0, 2, 10]), "seed": gen_seed(rng), "seed2": rng.randint(10**6 + 1, 2 * 10**6),
+            "seed_kind": rng.choice(["generator", "generator", "int", "int", "seedseq", "emptylist", "bitgen"]), "ambient": gen_ambient(rng)}
 
 
 def gen_items(rng):
@@ -144,7 +190,8 @@ def gen_ranker_case(rng):
     for _ in range(2):
         orders.append(rng.shuffle(list(range(len(reqs)))))
     c = {"type": "ranker", "cls": cls, "derived": derived, "users": users, "lists": lists, "requests": reqs, "orders": orders,
-         "n": rng.choice([None, 2, 5, -1]), "seed": rng.randint(1, 10**6), "seed2": rng.randint(10**6 + 1, 2 * 10**6),
+         "n": rng.choice([None, 2, 5, -1]), "seed": gen_seed(rng), "seed2": rng.randint(10**6 + 1, 2 * 10**6),
+         "seed_kind": rng.choice(CONFIG_SEED_KINDS), "ambient": gen_ambient(rng),
          "base": rng.choice(["seeded", "seeded", "user-only"]) if derived else "seeded",
          "anonymous_at": rng.choice([None, None, 0, 2])}
     if cls == "StochasticTopNRanker":
@@ -155,8 +202,8 @@ def gen_ranker_case(rng):
 def gen_train_case(rng):
     kind = rng.choice(TRAIN_KINDS)
     cfg = L.gen_config(rng, kind)
-    return {"type": "train", "kind": kind, "cfg": cfg, "dataset": L.gen_dataset(rng, 0), "seed_kind": rng.choice(["int", "seedseq", "intlist"]),
-            "seed": rng.randint(1, 10**6), "seed2": rng.randint(10**6 + 1, 2 * 10**6), "pipeline": rng.chance(1, 4)}
+    return {"type": "train", "kind": kind, "cfg": cfg, "dataset": L.gen_dataset(rng, 0), "seed_kind": rng.choice(TRAIN_SEED_KINDS),
+            "seed": gen_seed(rng), "seed2": rng.randint(10**6 + 1, 2 * 10**6), "pipeline": rng.chance(1, 4), "ambient": gen_ambient(rng)}
 
 
 def gen_big_dataset(rng):
@@ -191,6 +238,61 @@ def gen_threads_case(rng, nconf):
             "configs": THREAD_CONFIGS[:nconf]}
 
 
+# worker threads vary with the backend threads fixed: bit-identical models required.  The last configurations vary the
+# backend threads: BLAS sums large matrix products in a different order then, so those runs are compared up to
+# rounding (1e-6 of the scale), and not at all for models whose result is not a continuous function of rounding.
+# ((4, 4) oversubscribes torch's fork/join by two orders of magnitude in time.)
+LARGE_CONFIGS = [[1, 1], [2, 1], [4, 1], [1, 2], [3, 1], [2, 2]]
+ROUNDING_UNSTABLE = {"svd": "singular vectors of (nearly) equal singular values rotate under rounding",
+                     "flexe": "Adam's normalised steps amplify rounding", "flexi": "Adam's normalised steps amplify rounding"}
+
+
+def thread_pairs(case, obs):
+    """(configuration, run, label, mode) to compare with the first run: 'exact' or 'rounding'."""
+    base_cfg, base = case["configs"][0], obs["runs"][0]
+    for cfg, r in zip(case["configs"][1:], obs["runs"][1:]):
+        for label in sorted(k for k in base if not k.startswith("_")):
+            if not case.get("large") or cfg[1] == base_cfg[1] or base[label] == r[label]:
+                yield cfg, r, label, "exact"
+            elif label.split("-")[0] not in ROUNDING_UNSTABLE:
+                yield cfg, r, label, "rounding"
+_thresholds = None
+
+
+def size_threshold():
+    """Embedding matrices of the large-matrix trainings have more entries than the largest size constant the graph
+    sources compare with (regenerated from the current source), and at least 2**20."""
+    global _thresholds
+    if _thresholds is None:
+        try:
+            from translate import c11 as t
+            _thresholds = t.size_thresholds(common.SRC)
+        except Exception:
+            _thresholds = []
+    return max([x for x in _thresholds if x <= 2**22] + [2**20])
+
+
+def gen_large_threads_case(rng, nconf):
+    """Trainings whose user AND item embedding matrices cross the size thresholds of the training code, with one epoch
+    and about one rating per user / item so that the run stays cheap; same seed, separate processes, different
+    LK_NUM_THREADS / LK_NUM_BACKEND_THREADS."""
+    t = size_threshold()
+    k = rng.choice([50, 64, 80])
+    rows = -(-t // k)
+    syn = {"users": rows + rng.randint(20, 400), "items": rows + rng.randint(20, 400), "extra": rng.randint(0, 2000),
+           "seed": rng.randint(1, 10**6)}
+    models = [
+        ["als", "als", {"embedding_size": k, "epochs": 1}],
+        ["ials", "ials", {"embedding_size": k, "epochs": 1, "use_ratings": rng.chance(1, 2)}],
+        ["funk", "funk", {"features": k, "epochs": 1}],
+        ["svd", "svd", {"embedding_size": k, "n_iter": 1}],
+        ["flexe", "flexe", {"embedding_size": k, "epochs": 1, "batch_size": 8192}],
+        ["flexi", "flexi", {"embedding_size": k, "epochs": 1, "batch_size": 8192, "loss": rng.choice(["logistic", "pairwise"])}],
+    ]
+    return {"type": "threads", "large": True, "synthetic": syn, "threshold": t, "seed": gen_seed(rng), "models": models,
+            "configs": LARGE_CONFIGS[:nconf]}
+
+
 HASHSEEDS = ["0", "1", "random", "4242"]
 
 
@@ -214,19 +316,54 @@ def gen_hashseed_case(rng, nproc):
 
 
 def gen_api_case(rng):
-    return {"type": "api", "seed_kind": rng.choice(["int", "seedseq", "intlist", "none"]), "seed": rng.randint(1, 10**6),
+    return {"type": "api", "seed_kind": rng.choice(["int", "int", "seedseq", "intlist", "list1", "emptylist", "bitgen", "none"]), "seed": gen_seed(rng),
             "global": rng.choice([None, rng.randint(1, 10**6)]), "key": rng.choice([5, "alice", "u17", 2**40 + 3])}
+
+
+def grid_cases(rng):
+    """Small deterministic grids: every ranker x every edge seed value (fixed and user-derived), every trainable model
+    under DEBUG logging, every splitter path with seed 0."""
+    out = []
+    for cls in RANKERS:
+        for kind, seed in (("int", 0), ("emptylist", 0), ("list1", 0), ("int", 2**32 - 1), ("int", 2**63), ("intlist", 2**64)):
+            for derived in (False, True):
+                c = gen_ranker_case(rng.fork(("grid-ranker", cls, kind, seed, derived)))
+                c.update(cls=cls, seed_kind=kind, seed=seed, derived=derived, base="seeded")
+                if cls == "StochasticTopNRanker":
+                    c.setdefault("transform", "softmax")
+                else:
+                    c.pop("transform", None)
+                out.append(c)
+    for kind in TRAIN_KINDS:
+        for pipeline in (False, True):
+            c = gen_train_case(rng.fork(("grid-train", kind, pipeline)))
+            c.update(kind=kind, cfg=L.gen_config(rng.fork(("grid-cfg", kind, pipeline)), kind), pipeline=pipeline,
+                     ambient={"log": "DEBUG", "warnings": None, "global_rng": None},
+                     seed=0 if pipeline else c["seed"], seed_kind="int" if pipeline else c["seed_kind"])
+            out.append(c)
+    for j in range(12):
+        c = gen_split_case(rng.fork(("grid-split", j)))
+        c.update(seed=0, seed_kind=["int", "list1", "emptylist", "seedseq"][j % 4])
+        out.append(c)
+    for j in range(4):
+        c = gen_neg_case(rng.fork(("grid-neg", j)))
+        c.update(seed=0, seed_kind=["int", "emptylist", "seedseq", "generator"][j])
+        out.append(c)
+    return out
 
 
 def gen_cases(rng, tier):
     quick = tier == "quick"
     out = []
+    for j in range(1 if quick else 2):
+        out.append(gen_large_threads_case(rng.fork(("large-threads", j)), 4 if quick else 6))
     for j in range(2 if quick else 4):
         out.append(gen_threads_case(rng.fork(("threads", j)), 3 if quick else 5))
     for j in range(1 if quick else 4):
         out.append(gen_hashseed_case(rng.fork(("hashseed", j)), 3 if quick else 4))
     n = {"split": 150, "neg": 40, "ranker": 80, "train": 90, "api": 20} if quick else {"split": 1500, "neg": 400, "ranker": 900, "train": 500, "api": 100}
     gens = {"split": gen_split_case, "neg": gen_neg_case, "ranker": gen_ranker_case, "train": gen_train_case, "api": gen_api_case}
+    out += grid_cases(rng.fork("grid"))
     for k, cnt in n.items():
         for j in range(cnt):
             out.append(gens[k](rng.fork((k, j))))
@@ -246,9 +383,30 @@ def make_seed_obj(kind, seed):
         return np.random.SeedSequence(seed)
     if kind == "intlist":
         return [seed, 17]
+    if kind == "list1":
+        return [seed]
+    if kind == "emptylist":
+        return []
     if kind == "generator":
         return np.random.default_rng(seed)
+    if kind == "bitgen":
+        return np.random.PCG64(seed)
     return None
+
+
+def under(case, fn):
+    """fn() under the case's ambient state; when the result differs from `ref`, which single dimensions matter."""
+    with A.ambient(case.get("ambient")):
+        return fn()
+
+
+def blame(case, fn, ref):
+    out = []
+    for st in A.single_dimensions(case.get("ambient")):
+        with A.ambient(st):
+            if fn() != ref:
+                out.append(next(iter(st)))
+    return out or ["combination"]
 
 
 def make_holdout(h):
@@ -300,7 +458,12 @@ def run_split(case):
     a = do_split(case, case["seed"], case["seed_kind"])
     b = do_split(case, case["seed"], case["seed_kind"])
     c = do_split(case, case["seed2"], case["seed_kind"])
-    return {"a": a, "b": b, "other": c, "entry": case["op"]}
+    obs = {"a": a, "b": b, "other": c, "entry": case["op"]}
+    if case.get("ambient"):
+        obs["amb"] = under(case, lambda: do_split(case, case["seed"], case["seed_kind"]))
+        if a == b and obs["amb"] != a:
+            obs["blame"] = blame(case, lambda: do_split(case, case["seed"], case["seed_kind"]), a)
+    return obs
 
 
 def run_neg(case):
@@ -309,22 +472,30 @@ def run_neg(case):
     m = ds.interactions().matrix()
     rows = np.array(case["rows"], dtype=np.int32)
 
-    def one(seed):
+    def one(seed, quiet=True):
         import warnings
         with warnings.catch_warnings():
-            warnings.simplefilter("ignore")
+            if quiet:
+                warnings.simplefilter("ignore")
             r = m.sample_negatives(rows, weighting=case["weighting"], n=case["n"], verify=case["verify"],
-                                   max_attempts=case["max_attempts"], rng=np.random.default_rng(seed))
+                                   max_attempts=case["max_attempts"], rng=make_seed_obj(case.get("seed_kind", "generator"), seed))
         return [int(x) for x in np.asarray(r).ravel().tolist()]
-    return {"a": one(case["seed"]), "b": one(case["seed"]), "other": one(case["seed2"]), "entry": "MatrixRelationshipSet.sample_negatives"}
+    obs = {"a": one(case["seed"]), "b": one(case["seed"]), "other": one(case["seed2"]), "entry": "MatrixRelationshipSet.sample_negatives"}
+    if case.get("ambient"):
+        quiet = not case["ambient"].get("warnings")
+        obs["amb"] = under(case, lambda: one(case["seed"], quiet))
+        if obs["a"] == obs["b"] and obs["amb"] != obs["a"]:
+            obs["blame"] = blame(case, lambda: one(case["seed"], quiet), obs["a"])
+    return obs
 
 
 def build_ranker(case, seed):
     import warnings
+    sv = make_seed_obj(case.get("seed_kind", "int"), seed)
     if case["derived"]:
-        spec = (seed, "user") if case["base"] == "seeded" else "user"
+        spec = (sv, "user") if case["base"] == "seeded" else "user"
     else:
-        spec = seed
+        spec = sv
     kw = {"rng": spec}
     if case["n"] is not None:
         kw["n"] = case["n"]
@@ -360,13 +531,23 @@ def run_ranker(case):
         obs["orders"] = [serve(rk, case, o) for o in case["orders"]]          # one object, three request orders
         if case["base"] == "seeded":
             obs["second_object"] = serve(build_ranker(case, case["seed"]), case, case["orders"][-1])
+            if case.get("ambient"):      # a third object, built and used under another ambient state
+                f = lambda: serve(build_ranker(case, case["seed"]), case, case["orders"][-1])
+                obs["amb"] = under(case, f)
+                if obs["amb"] != obs["second_object"] and obs["second_object"] == f():
+                    obs["blame"] = blame(case, f, obs["second_object"])
         obs["other"] = serve(build_ranker(case, case["seed2"]), case, case["orders"][0])
     else:
         o = case["orders"][0]
-        obs["a"] = serve(build_ranker(case, case["seed"]), case, o)
-        obs["b"] = serve(build_ranker(case, case["seed"]), case, o)
+        f = lambda: serve(build_ranker(case, case["seed"]), case, o)
+        obs["a"] = f()
+        obs["b"] = f()
         obs["other"] = serve(build_ranker(case, case["seed2"]), case, o)
         obs["permuted"] = serve(build_ranker(case, case["seed"]), case, case["orders"][1])
+        if case.get("ambient"):
+            obs["amb"] = under(case, f)
+            if obs["a"] == obs["b"] and obs["amb"] != obs["a"]:
+                obs["blame"] = blame(case, f, obs["a"])
     return obs
 
 
@@ -402,23 +583,39 @@ def run_train(case):
         a = train_once(case, case["seed"])
         b = train_once(case, case["seed"])
         c = train_once(case, case["seed2"])
+        obs = {"a": a, "b": b, "other": c, "entry": "Pipeline.train" if case["pipeline"] else ENTRY_OF[case["kind"]]}
+        if case.get("ambient"):
+            obs["amb"] = under(case, lambda: train_once(case, case["seed"]))
+            if a == b and obs["amb"] != a:
+                obs["blame"] = blame(case, lambda: train_once(case, case["seed"]), a)
     except (KeyError, ValueError, RuntimeError) as e:
         return {"error": type(e).__name__}
-    return {"a": a, "b": b, "other": c, "entry": "Pipeline.train" if case["pipeline"] else ENTRY_OF[case["kind"]]}
+    return obs
+
+
+def worker(job: str, env, what: str):
+    """One worker process.  torch's thread pools occasionally abort at interpreter exit on a loaded machine
+    ("terminate called without an active exception") after the result was written: a complete result is accepted,
+    anything else is tried once more."""
+    err = ""
+    for attempt in range(2):
+        p = subprocess.run([common.PY, "-W", "ignore", str(common.VERIF / "harness" / "c11_worker.py")], input=job, capture_output=True,
+                           text=True, env=env, timeout=900)
+        try:
+            return json.loads(p.stdout[p.stdout.index("{"):])
+        except ValueError:
+            err = p.stderr[-800:]
+    raise RuntimeError(f"worker {what} failed: {err}")
 
 
 def run_threads(case):
-    job = json.dumps({"dataset": case["dataset"], "seed": case["seed"], "models": case["models"]})
+    job = json.dumps({"dataset": case.get("dataset"), "synthetic": case.get("synthetic"), "seed": case["seed"], "models": case["models"]})
 
     def one(cfg):
         t, b = cfg
         env = common.base_env(LK_NUM_THREADS=t, LK_NUM_BACKEND_THREADS=b, OMP_NUM_THREADS=b, MKL_NUM_THREADS=b,
                               OPENBLAS_NUM_THREADS=b, NUMBA_NUM_THREADS=max(t, b), TQDM_DISABLE=1, VERIF_NO_SYNC=1)
-        p = subprocess.run([common.PY, "-W", "ignore", str(common.VERIF / "harness" / "c11_worker.py")], input=job, capture_output=True,
-                           text=True, env=env, timeout=900)
-        if p.returncode != 0:
-            raise RuntimeError(f"worker {cfg} failed: {p.stderr[-800:]}")
-        return json.loads(p.stdout[p.stdout.index("{"):])
+        return worker(job, env, str(cfg))
     with ThreadPoolExecutor(len(case["configs"])) as ex:
         res = list(ex.map(one, case["configs"]))
     return {"runs": res}
@@ -430,11 +627,7 @@ def run_hashseed(case):
 
     def one(hs):
         env = common.base_env(PYTHONHASHSEED=hs, TQDM_DISABLE=1, VERIF_NO_SYNC=1)
-        p = subprocess.run([common.PY, "-W", "ignore", str(common.VERIF / "harness" / "c11_worker.py")], input=job, capture_output=True,
-                           text=True, env=env, timeout=900)
-        if p.returncode != 0:
-            raise RuntimeError(f"worker PYTHONHASHSEED={hs} failed: {p.stderr[-800:]}")
-        return json.loads(p.stdout[p.stdout.index("{"):])
+        return worker(job, env, f"PYTHONHASHSEED={hs}")
     with ThreadPoolExecutor(len(case["hashseeds"])) as ex:
         res = list(ex.map(one, case["hashseeds"]))
     return {"runs": res, "entry": "Pipeline.train"}
@@ -465,9 +658,14 @@ def run_api(case):
         k3 = [int(x) for x in LR.derivable_rng((case["seed"], "user"))(RecQuery(user_id=case["key"])).integers(0, 2**62, 3)]
         ms = [int(x) for x in LR.make_seed(case["seed"], case["key"]).generate_state(2)]
         ms2 = [int(x) for x in LR.make_seed(case["seed"], case["key"]).generate_state(2)]
+        # a fixed factory from a plain seed (whatever its value): two factories, same stream
+        fx = []
+        if case["seed_kind"] in ("int", "intlist", "list1", "emptylist"):
+            for _ in range(2):
+                fx.append([int(x) for x in LR.derivable_rng(make_seed_obj(case["seed_kind"], case["seed"]))(RecQuery(user_id=case["key"])).integers(0, 2**62, 3)])
     finally:
         LR._global_rng = saved
-    return {"used_global": bool(used_global), "d1": d1, "d2": d2, "k1": k1, "k2": k2, "k3": k3, "ms": ms, "ms2": ms2}
+    return {"used_global": bool(used_global), "d1": d1, "d2": d2, "k1": k1, "k2": k2, "k3": k3, "ms": ms, "ms2": ms2, "fx": fx}
 
 
 def run_impl(case):
@@ -503,14 +701,18 @@ def coq_term(case, obs):
             return cbool(obs["a"].get("error") == obs["b"].get("error"))
         return None
     if t == "split":
-        return f"{entry_closed(obs['entry'])} && zlist_eqb {zl(obs['a']['digests'])} {zl(obs['b']['digests'])}"
+        amb = f" && zlist_eqb {zl(obs['a']['digests'])} {zl(obs['amb'].get('digests', [-1]))}" if "amb" in obs else ""
+        return f"{entry_closed(obs['entry'])} && zlist_eqb {zl(obs['a']['digests'])} {zl(obs['b']['digests'])}" + amb
     if t == "neg":
-        return f"{entry_closed(obs['entry'])} && zlist_eqb {zl(obs['a'])} {zl(obs['b'])}"
+        amb = f" && zlist_eqb {zl(obs['a'])} {zl(obs['amb'])}" if "amb" in obs else ""
+        return f"{entry_closed(obs['entry'])} && zlist_eqb {zl(obs['a'])} {zl(obs['b'])}" + amb
     if t == "train":
-        return f"{entry_closed(obs['entry'])} && {same_store(obs['a'], obs['b'])}"
+        amb = f" && {same_store(obs['a'], obs['amb'])}" if "amb" in obs else ""
+        return f"{entry_closed(obs['entry'])} && {same_store(obs['a'], obs['b'])}" + amb
     if t == "ranker":
         if not case["derived"]:
-            return f"{entry_closed(obs['entry'])} && zlist_eqb {zl(obs['a'])} {zl(obs['b'])}"
+            amb = f" && zlist_eqb {zl(obs['a'])} {zl(obs['amb'])}" if "amb" in obs else ""
+            return f"{entry_closed(obs['entry'])} && zlist_eqb {zl(obs['a'])} {zl(obs['b'])}" + amb
         # table: (user index, payload = list index) -> answer of the first time it was served in the first order
         table, seen = [], set()
         for pos, k in enumerate(case["orders"][0]):
@@ -523,6 +725,8 @@ def coq_term(case, obs):
         runs = list(zip(case["orders"], obs["orders"]))
         if "second_object" in obs:
             runs.append((case["orders"][-1], obs["second_object"]))
+        if "amb" in obs:
+            runs.append((case["orders"][-1], obs["amb"]))
         for order, answers in runs:
             rq = clist([case["requests"][k] for k in order], lambda r: f"({cz(r[0])}, {cz(r[1])})")
             terms.append(f"agree_derived deriving_plan {tq} {rq} {zl(answers)}")
@@ -530,9 +734,14 @@ def coq_term(case, obs):
     if t == "threads":
         terms = []
         base = obs["runs"][0]
-        for r in obs["runs"][1:]:
-            for label in sorted(k for k in base if not k.startswith("_")):
+        for cfg, r, label, mode in thread_pairs(case, obs):
+            if mode == "exact":
                 terms.append(same_store(base[label], r[label]))
+            else:
+                fa, fb = base["_numeric"][label], r["_numeric"][label]
+                for k in sorted(set(fa) | set(fb)):
+                    x, y = A.scaled(fa.get(k, []), fb.get(k, [0.0]))
+                    terms.append(f"zlist_close 1000 {zl(x)} {zl(y)}")
         # block sizes: the iknn models of one run agree with each other
         ik = sorted(k for k in base if k.startswith("iknn-bs"))
         for r in obs["runs"]:
@@ -551,7 +760,8 @@ def coq_term(case, obs):
         want_global = "UseGlobal" if obs["used_global"] else "FromArgument"
         plan = f"match random_generator_plan {cbool(case['seed_kind'] != 'none')} {cbool(case['global'] is not None)}, {want_global} with UseGlobal, UseGlobal => true | FromArgument, FromArgument => true | _, _ => false end"
         eq = "true" if case["seed_kind"] == "none" else f"zlist_eqb {zl(obs['d1'])} {zl(obs['d2'])}"
-        return f"({plan}) && {eq} && zlist_eqb {zl(obs['k1'])} {zl(obs['k2'])} && zlist_eqb {zl(obs['k1'])} {zl(obs['k3'])} && zlist_eqb {zl(obs['ms'])} {zl(obs['ms2'])}"
+        fx = f" && zlist_eqb {zl(obs['fx'][0])} {zl(obs['fx'][1])}" if obs.get("fx") else ""
+        return f"({plan}) && {eq} && zlist_eqb {zl(obs['k1'])} {zl(obs['k2'])} && zlist_eqb {zl(obs['k1'])} {zl(obs['k3'])} && zlist_eqb {zl(obs['ms'])} {zl(obs['ms2'])}" + fx
     return None
 
 
@@ -566,6 +776,25 @@ def split_path(case):
     return f"{case['op']}:{case['mode']}"
 
 
+def seed_text(case):
+    k = case.get("seed_kind", "int")
+    return f"seed {'[]' if k == 'emptylist' else case['seed']} ({k})"
+
+
+def ambient_check(case, obs, what, v):
+    """Same seed, inputs and call sequence under another ambient state (logging verbosity, warnings filter, global
+    generators) must give the same result."""
+    if "amb" not in obs:
+        return
+    ref = obs["second_object"] if case["type"] == "ranker" and case["derived"] else obs["a"]
+    if obs["amb"] != ref:
+        dims = obs.get("blame") or ["combination"]
+        st = case["ambient"]
+        v.append((f"ambient-dependent:{what}:{'+'.join(dims)}",
+                  f"{what} with {seed_text(case)} gives a different result under ambient state {st} than under the default state "
+                  f"(decisive: {', '.join(dims)}): the outcome depends on something that is not the seed, the inputs or the call sequence"))
+
+
 def oracle(case, obs):
     t = case["type"]
     v = []
@@ -576,17 +805,24 @@ def oracle(case, obs):
                 v.append((f"not-reproducible:{split_path(case)}", f"same seed: one run raised {a.get('error')}, the other {b.get('error')}"))
         elif a["digests"] != b["digests"]:
             v.append((f"not-reproducible:{split_path(case)}" + (":then" if case.get("then") and a["digests"][:-2] == b["digests"][:-2] else ""),
-                      f"{case['op']} with the same seed ({case['seed_kind']}) gave different splits (hold-out {case.get('holdout', {}).get('kind')})"))
+                      f"{case['op']} with the same {seed_text(case)} gave different splits (hold-out {case.get('holdout', {}).get('kind')}"
+                      + (f" with seed {case['holdout']['seed']}" if case.get("holdout", {}).get("seed") is not None else "") + ")"))
+        else:
+            ambient_check(case, obs, split_path(case), v)
     elif t == "neg":
         if obs["a"] != obs["b"]:
-            v.append((f"not-reproducible:sample_negatives:{case['weighting']}", "negative sampling with the same seed gave different items"))
+            v.append((f"not-reproducible:sample_negatives:{case['weighting']}", f"negative sampling with the same {seed_text(case)} gave different items"))
+        else:
+            ambient_check(case, obs, f"sample_negatives:{case['weighting']}", v)
     elif t == "train":
         if obs.get("error"):
             return []
+        what = f"train:{case['kind']}" + (":pipeline" if case["pipeline"] else "")
         if obs["a"] != obs["b"]:
             bad = sorted(k for k in set(obs["a"]) | set(obs["b"]) if obs["a"].get(k) != obs["b"].get(k))
-            v.append((f"not-reproducible:train:{case['kind']}" + (":pipeline" if case["pipeline"] else ""),
-                      f"training twice with the same seed ({case['seed_kind']}) gave different {bad}"))
+            v.append((f"not-reproducible:{what}", f"training twice with the same {seed_text(case)} gave different {bad}"))
+        else:
+            ambient_check(case, obs, what, v)
     elif t == "ranker":
         if case["derived"]:
             ans = {}
@@ -597,17 +833,30 @@ def oracle(case, obs):
                 for pos, k in enumerate(order):
                     key = tuple(case["requests"][k])
                     if ans.setdefault(key, answers[pos]) != answers[pos]:
-                        v.append((f"order-dependent:{case['cls']}", f"user {case['users'][key[0]]!r} got different lists for the same request depending on what was served before"))
+                        v.append((f"order-dependent:{case['cls']}", f"user {case['users'][key[0]]!r} got different lists for the same request depending on what was served before "
+                                  f"(ranker seeded with ({seed_text(case)}, 'user'))"))
+            if not v:
+                ambient_check(case, obs, case["cls"] + ":derived", v)
         else:
             if obs["a"] != obs["b"]:
-                v.append((f"not-reproducible:{case['cls']}", "two rankers with the same seed and the same request sequence gave different lists"))
+                v.append((f"not-reproducible:{case['cls']}", f"two rankers configured with the same {seed_text(case)} and given the same request sequence gave different lists"))
+            else:
+                ambient_check(case, obs, case["cls"], v)
     elif t == "threads":
         base = obs["runs"][0]
-        for cfg, r in zip(case["configs"][1:], obs["runs"][1:]):
-            for label in sorted(k for k in base if not k.startswith("_")):
-                if base[label] != r[label]:
-                    bad = sorted(k for k in base[label] if base[label][k] != r[label].get(k))
-                    v.append((f"thread-dependent:{label.split('-')[0]}", f"{label} trained with threads={cfg} differs from threads={case['configs'][0]} in {bad}"))
+        for cfg, r, label, mode in thread_pairs(case, obs):
+            if mode == "rounding":
+                fa, fb = base["_numeric"][label], r["_numeric"][label]
+                bad = sorted(k for k in set(fa) | set(fb) if not A.close(fa.get(k, []), fb.get(k, [0.0])))
+                if bad:
+                    v.append((f"thread-dependent:{label.split('-')[0]}:large:beyond-rounding",
+                              f"{label} trained with seed {case['seed']} and threads={cfg} differs from threads={case['configs'][0]} in {bad} by more than 1e-6 of "
+                              f"the scale ({obs['runs'][0].get('_sizes')} users/items/ratings, matrices beyond {case['threshold']} entries)"))
+            elif base[label] != r[label]:
+                bad = sorted(k for k in base[label] if base[label][k] != r[label].get(k))
+                size = f" ({obs['runs'][0].get('_sizes')} users/items/ratings, matrices beyond {case['threshold']} entries)" if case.get("large") else ""
+                v.append((f"thread-dependent:{label.split('-')[0]}" + (":large" if case.get("large") else ""),
+                          f"{label} trained with seed {case['seed']} and threads={cfg} differs from threads={case['configs'][0]} in {bad}{size}"))
         ik = sorted(k for k in base if k.startswith("iknn-bs"))
         for r in obs["runs"]:
             for k in ik[1:]:
@@ -631,6 +880,8 @@ def oracle(case, obs):
             v.append(("order-dependent:derivable_rng", "user-derived generator for the same (seed, user) differs"))
         if obs["ms"] != obs["ms2"]:
             v.append(("not-reproducible:make_seed", "make_seed gave different seeds for equal keys"))
+        if obs.get("fx") and obs["fx"][0] != obs["fx"][1]:
+            v.append(("not-reproducible:derivable_rng", f"two fixed factories made by derivable_rng from the same {seed_text(case)} gave different streams"))
     seen, out = set(), []
     for k, w in v:
         if k not in seen:
@@ -650,6 +901,9 @@ def nontrivial(case, obs):
     if t == "ranker":
         return (obs["orders"][0] if case["derived"] else obs["a"]) != obs["other"]
     if t == "threads":
+        if case.get("large"):
+            sz, k = obs["runs"][0]["_sizes"], case["models"][0][2]["embedding_size"]
+            return len(obs["runs"]) >= 2 and min(sz[0], sz[1]) * k > case["threshold"]
         return len(obs["runs"]) >= 2
     if t == "hashseed":
         return len({tuple(r["_hashseed"]) for r in obs["runs"]}) >= 2      # the processes really hashed strings differently
@@ -659,6 +913,10 @@ def nontrivial(case, obs):
 def counters(case, obs):
     t = case["type"]
     yield "type=" + t
+    if t in ("split", "neg", "ranker", "train", "api") and case.get("seed_kind") != "none":
+        yield "seed-value=" + seed_class(case.get("seed_kind", "int"), case["seed"])
+    if case.get("ambient") and "amb" in obs:
+        yield "ambient=" + "+".join(f"{d}:{case['ambient'][d] if d != 'global_rng' else 'set'}" for d in A.DIMENSIONS if case["ambient"].get(d) is not None)
     if t == "split":
         yield "path=" + split_path(case)
         yield "seed-kind=" + case["seed_kind"]
@@ -672,6 +930,7 @@ def counters(case, obs):
         yield f"neg={case['weighting']}/n={case['n']}/verify={case['verify']}/attempts={case['max_attempts']}"
     elif t == "ranker":
         yield f"ranker={case['cls']}/{'derived-' + case['base'] if case['derived'] else 'fixed'}"
+        yield "seed-kind=" + case.get("seed_kind", "int")
         if case["anonymous_at"] is not None:
             yield "ranker-anonymous-request-interleaved"
         if not case["derived"]:
@@ -686,6 +945,10 @@ def counters(case, obs):
     elif t == "threads":
         for cfg, r in zip(case["configs"], obs["runs"]):
             yield f"threads={cfg[0]}/backend={cfg[1]}/torch={r['_config']['torch_threads']}/interop={r['_config']['torch_interop']}"
+        if case.get("large"):
+            sz = obs["runs"][0]["_sizes"]
+            k = case["models"][0][2]["embedding_size"]
+            yield f"large-matrix-training/threshold={case['threshold']}/user-entries>={sz[0] * k > case['threshold']}/item-entries>={sz[1] * k > case['threshold']}"
     elif t == "hashseed":
         for hs in case["hashseeds"]:
             yield "PYTHONHASHSEED=" + hs
@@ -697,7 +960,8 @@ def counters(case, obs):
 
 def sample(case, obs):
     if case["type"] == "threads":
-        return {"case": {"type": "threads", "configs": case["configs"], "models": [m[0] for m in case["models"]], "rows": len(case["dataset"]["rows"])},
+        return {"case": {"type": "threads", "configs": case["configs"], "models": [m[0] for m in case["models"]],
+                         "rows": len(case["dataset"]["rows"]) if "dataset" in case else case["synthetic"]},
                 "observation": {"configs": [r["_config"] for r in obs["runs"]], "als": [r["als"] for r in obs["runs"]]}}
     small = {k: v for k, v in case.items() if k != "dataset"}
     if case["type"] == "hashseed":
@@ -705,10 +969,21 @@ def sample(case, obs):
     return {"case": small, "observation": {k: v for k, v in obs.items()}}
 
 
+_shrunk = [0]
+
+
 def shrink(case, fails):
     if "dataset" not in case or case["type"] in ("threads", "hashseed"):
         return case
+    _shrunk[0] += 1
+    if _shrunk[0] > 5:        # at most five oracle keys are shrunk per run
+        return case
     c = dict(case)
+    if c.get("ambient"):      # keep only the ambient dimensions that matter
+        for st in A.single_dimensions(c["ambient"]):
+            if fails({**c, "ambient": {**{d: None for d in A.DIMENSIONS}, **st}}):
+                c["ambient"] = {**{d: None for d in A.DIMENSIONS}, **st}
+                break
 
     def with_rows(rows):
         d = dict(c["dataset"])
